@@ -124,8 +124,8 @@ var tier2Borrowing = map[string]string{
 
 func init() {
 	register(&Rule{
-		ID: "R04.2", Props: []string{"C04", "C16", "C15", "C09"}, Engine: "linear (go/ssa typestate, tier 2: receiver fields as handles)",
-		Text: "inside pkg/blobstore/buffer every Buffer, ChunkReader, io.ReadCloser and ErrorHandler that a function receives as a parameter or obtains from a call is consumed exactly once on every path (Buffer: one of its consuming methods; ChunkReader / ReadCloser: Close; ErrorHandler: Done; or handed on); in every consuming method of a type that wraps such values (decorators, validating and error-handling readers) each owned field is closed / discarded / Done / handed on exactly once on every path; a stream clone (casClonedBuffer) leaves its clone group exactly once on every path of each consuming method",
+		ID: "R04.2", Props: []string{"C04", "C16", "C15", "C09", "C08"}, Engine: "linear (go/ssa typestate, tier 2: receiver fields as handles)",
+		Text:  "inside pkg/blobstore/buffer every Buffer, ChunkReader, io.ReadCloser and ErrorHandler that a function receives as a parameter or obtains from a call is consumed exactly once on every path (Buffer: one of its consuming methods; ChunkReader / ReadCloser: Close; ErrorHandler: Done; or handed on); in every consuming method of a type that wraps such values (decorators, validating and error-handling readers) each owned field is closed / discarded / Done / handed on exactly once on every path; a stream clone (casClonedBuffer) leaves its clone group exactly once on every path of each consuming method",
 		Floor: 60, MustExist: false,
 		Run: runR042,
 	})
